@@ -58,6 +58,11 @@ class Abstractor:
     def _expr(self, node):
         if node is None:
             return
+        if isinstance(node, ast.Call) and isinstance(node.func, ast.Name) and node.func.id in ("isinstance", "type", "id", "repr", "str"):
+            for a in node.args:
+                if not self.is_tree(a):
+                    self._expr(a)
+            return
         if isinstance(node, ast.Call):
             f = node.func
             # super().save(...) -> call of the base class method
@@ -104,7 +109,24 @@ class Abstractor:
                 return
             self._expr(node.value)
             return
+        if isinstance(node, ast.Compare) and all(isinstance(o, (ast.Is, ast.IsNot)) for o in node.ops):
+            # identity comparisons do not look inside the tree
+            for e in [node.left] + list(node.comparators):
+                if not self.is_tree(e):
+                    self._expr(e)
+            return
+        if isinstance(node, ast.Call) and isinstance(node.func, ast.Name) and node.func.id in ("isinstance", "type", "id", "repr"):
+            for a in node.args:
+                if not self.is_tree(a):
+                    self._expr(a)
+            return
+        if isinstance(node, ast.FormattedValue) and self.is_tree(node.value):
+            return    # f"{self}": Tree.__repr__ shows class and name only
         if isinstance(node, ast.Name):
+            if node.id == self.var and isinstance(node.ctx, ast.Load):
+                # the bare tree object as a value: truthiness / len() / `in` / iteration / handing it to other code all look at its nodes
+                self.events.append(("read", f"use of {self.var} as a value"))
+                return
             if node.id in self.tainted and isinstance(node.ctx, ast.Load):
                 # consuming a (possibly lazy) result of a tree call walks the tree at this point
                 self.events.append(("read", f"use of {node.id} (result of a tree call)"))
